@@ -11,6 +11,8 @@ import (
 	"os"
 	"path/filepath"
 	"testing"
+
+	"pgregory.net/rapid"
 )
 
 func fuzzType(data []byte) (string, []byte) {
@@ -95,4 +97,51 @@ func FuzzC15(f *testing.F) {
 			t.Fatalf("%s: %s", fl.Signature, fl.Msg)
 		}
 	})
+}
+
+// FuzzRapid drives the rapid properties of one listed property (VERIF_PROPERTY) with the native coverage-guided
+// engine: the fuzzer's bytes are the generators' choice sequence (rapid.MakeFuzz), the first draw picks the
+// sub-property (type / scenario). Oracles, case format and replay are those of the rapid tiers; a failing case is
+// stored as JSON by the worker at once.
+func FuzzRapid(f *testing.F) {
+	pid := os.Getenv("VERIF_PROPERTY")
+	mk := RapidProps[pid]
+	if mk == nil {
+		f.Skip("VERIF_PROPERTY does not name a property with rapid properties")
+	}
+	props := mk()
+	if len(props) == 0 {
+		f.Skip("no rapid properties")
+	}
+	// seed corpus: choice sequences of several lengths from a fixed splitmix stream, plus all-minimal / all-maximal choices
+	x := uint64(0x9E3779B97F4A7C15)
+	next := func() uint64 {
+		x += 0x9E3779B97F4A7C15
+		z := x
+		z = (z ^ (z >> 30)) * 0xBF58476D1CE4E5B9
+		z = (z ^ (z >> 27)) * 0x94D049BB133111EB
+		return z ^ (z >> 31)
+	}
+	for _, n := range []int{2048, 8192, 32768, 131072} {
+		for k := 0; k < 24; k++ {
+			b := make([]byte, n)
+			for i := 0; i+8 <= n; i += 8 {
+				v := next()
+				for j := 0; j < 8; j++ {
+					b[i+j] = byte(v >> (8 * j))
+				}
+			}
+			f.Add(b)
+		}
+		f.Add(make([]byte, n))
+		ff := make([]byte, n)
+		for i := range ff {
+			ff[i] = 0xff
+		}
+		f.Add(ff)
+	}
+	f.Fuzz(rapid.MakeFuzz(func(rt *rapid.T) {
+		i := rapid.IntRange(0, len(props)-1).Draw(rt, "property")
+		props[i].Run(rt)
+	}))
 }
